@@ -53,7 +53,7 @@ def gen_cases(tier, seed):
     for i in range(n):
         s = env.seed_for(seed, ID, tier, i)
         r = random.Random(env.seed_for(s, "descriptor"))  # independent of the stream run_case derives from the same seed
-        out.append({"seed": s, "observer": r.choice(["console", "html", "html_path", "ipython"]), "mode": r.choice(["direct", "threaded"]),
+        out.append({"seed": s, "observer": r.choice(["console", "html", "html_path", "ipython"]), "mode": r.choice(["direct", "threaded"]), "exit_with": r.choice(["none", "none", "error", "kbi", "sysexit"]),
                     "nscopes": r.choice([1, 2, 3, 5, 8]), "nthreads": r.choice([1, 1, 2, 4]), "style": r.choice(["same_unorderable", "mixed", "strings", "any"]),
                     "exceptions": r.choice([0, 0, 1, 3, 150, 200]) if r.random() < 0.5 else 0})
     return out
@@ -282,7 +282,24 @@ def run_case(desc):
                     render_error = f"final rendering raised {type(e).__name__}: {e}"
         else:
             T = desc["nthreads"]
-            with obs:
+
+            class _Ctx:
+                """enters the observer; leaves it the way run does - with no exception, with the CallError of a failed run, or with the
+                KeyboardInterrupt / SystemExit of an interrupted one: the last rendering shows the final counts in every case"""
+
+                def __enter__(self_):
+                    obs.__enter__()
+
+                def __exit__(self_, *a):
+                    ew = desc.get("exit_with", "none")
+                    if ew == "none":
+                        obs.__exit__(None, None, None)
+                    else:
+                        e_ = {"error": RuntimeError("a call failed"), "kbi": KeyboardInterrupt(), "sysexit": SystemExit(3)}[ew]
+                        obs.__exit__(type(e_), e_, None)
+                    return False
+
+            with _Ctx():
                 if T == 1:
                     for k, (th, op, section, sc, arg, dtm) in enumerate(seq):
                         clock.advance(dtm)
